@@ -140,13 +140,14 @@ func builtinArrayPop(call FunctionCall) Value {
 }
 
 func builtinArrayJoin(call FunctionCall) Value {
+	thisObject := call.thisObject()
+	length := int64(toUint32(thisObject.get(propertyLength)))
+	// the separator is converted after length has been read (15.4.4.5 steps 2-5)
 	separator := ","
 	argument := call.Argument(0)
 	if argument.IsDefined() {
 		separator = argument.string()
 	}
-	thisObject := call.thisObject()
-	length := int64(toUint32(thisObject.get(propertyLength)))
 	if length == 0 {
 		return stringValue("")
 	}
